@@ -1349,7 +1349,7 @@ func (la *lockAnalysis) Reentrancy() []lockReentry {
 				if st == nil {
 					continue
 				}
-				if held := st[ownerKey(arg)]; held > 0 && (held == 2 || lvl == 2) {
+				if held := st[ownerKey(arg)]; held > 0 && lvl > 0 {
 					out = append(out, lockReentry{fn, call, cf, ownerKey(arg), held, lvl})
 				}
 			}
